@@ -234,4 +234,26 @@ def intBin (s : Text) : Outcome Int :=
 /-- `''.join(list_of_str)` -/
 def joinStr (l : List Text) : Text := l.flatten
 
+/-! ### configuration entries and values that are text OR bytes (`iso8583._field_to_iso8583`) -/
+
+/-- the entries of a `bit_config` element the translated functions read -/
+structure BitCfg where
+  field_type : Text
+  field_length : Int
+  deriving Repr
+
+/-- a value that is a `str` or a `bytes` object (`isinstance(v, bytes)` tells which) -/
+inductive SB
+  | str (t : Text)
+  | bytes (b : Bytes)
+  deriving Repr
+
+/-- `len(v)` -/
+def sbLen : SB → Int
+  | .str t => (t.length : Int)
+  | .bytes b => (b.length : Int)
+
+/-- `format(s, '<' + str(n))`: left-justified in `n` columns with blanks (never truncated) -/
+def fmtLeft (n : Int) (s : Text) : Text := s ++ List.replicate (n.toNat - s.length) 32
+
 end Cardutil.Py.Rt
